@@ -20,6 +20,14 @@
 (* by the Go harness.  Membership of an address in a network is the table  *)
 (* Covers (checked against net.IPNet.Contains by the harness at start).    *)
 (*                                                                         *)
+(* Deviations (constant Dev; the ideal design is Dev = {}):                 *)
+(*   DevDuplicateOnReAdd  re-adding a present dynamic route appends a      *)
+(*                        second allow-list entry (the pinned code did     *)
+(*                        this; remove then leaves one entry behind)       *)
+(*   DevRemoveKeepsAllow  remove forgets the allow list                    *)
+(*   DevWildcardNoDot     "*.x" compared as a plain string suffix          *)
+(*   DevForwardPrefixMatch, DevForwardCaseFold  (part 2)                   *)
+(*                                                                         *)
 (* Part 2 (C20) is at the end: the forward key universe as VEC records.    *)
 (***************************************************************************)
 EXTENDS Integers, Sequences, FiniteSets, TLC, Json
